@@ -189,6 +189,37 @@ def run(F, chk):
     chk.floor(R4, 90)
 
     # ------------------------------------------------------------------ R1.5
+    for cls, ok, why, site in registered_type_names(F):
+        if cls is None:
+            chk.violation("R1.5", "C01/R1.5:dup:%s" % why[0], "src/Factory.cpp", "block name \"%s\" is shared by %s: a saved block is re-loaded as another class" % why)
+            continue
+        chk.instance(R5, ok=ok, sample={"class": cls})
+        if not ok:
+            chk.violation("R1.5", "C01/R1.5:%s" % cls, site, "registered block type %s %s" % (cls, why))
+    chk.floor(R5, 290)
+
+    # ------------------------------------------------------------------ R1.6
+    prunes = [f for f in F.fns.values() if f.get("cls") == "nifly::NiHeader" and f["short"] == "DeleteUnreferencedBlocks" and f.get("tmpl") != "pattern"]
+    for fn in prunes:
+        ok = c04._restarts_after_delete(F, fn)
+        chk.instance(R6, ok=ok, sample={"fn": fn["name"], "restarts": ok})
+        if not ok:
+            chk.violation("R1.6", "C01/R1.6:%s" % fn["name"].split("<")[0], where(fn),
+                          "the pruner continues its scan forward after a deletion: blocks that became unreferenced at lower indices "
+                          "survive, so repeated load/save needs more than two rounds to converge")
+    chk.floor(R6, 1)
+
+    chk.assumptions += ["value-level encode/decode inside one shared expression, PrepareData<->FinalizeData inverse-ness and the "
+                        "two-round convergence bound are not decided",
+                        "locals of hand-written readers (NiString buffers, header version locals) are not wire-visible names; "
+                        "their widths are compared under C08"]
+    chk.extra["explanation"] = ("read/write symmetry of the code for all registered classes and version regions, CRTP wiring, "
+                                "count/array coherence, registry completeness and pruning fixpoint; byte equality is not decided")
+
+
+def registered_type_names(F):
+    """(class, ok, why, site) for every registered block type: concrete, own BlockName, GetBlockName() returns it; and
+    (None, False, (name, classes), None) for every block name shared by two registered types"""
     reg = c11.factory_types(F)
     names = {}
     for cls in reg:
@@ -213,32 +244,10 @@ def run(F, chk):
                                     and _names_own(x["e"], cls) for x in rets)
                 if not good:
                     ok, why = False, why or "GetBlockName() does not return its own BlockName"
-        chk.instance(R5, ok=ok, sample={"class": cls})
-        if not ok:
-            chk.violation("R1.5", "C01/R1.5:%s" % cls, "%s:%s" % ((r or {}).get("file", "?"), ((r or {}).get("loc", "?")).split(":")[0]),
-                          "registered block type %s %s" % (cls, why))
+        yield cls, ok, why, "%s:%s" % ((r or {}).get("file", "?"), ((r or {}).get("loc", "?")).split(":")[0])
     for n, cs in names.items():
         if len(cs) > 1:
-            chk.violation("R1.5", "C01/R1.5:dup:%s" % n, "src/Factory.cpp", "block name \"%s\" is shared by %s: a saved block is re-loaded as another class" % (n, cs))
-    chk.floor(R5, 290)
-
-    # ------------------------------------------------------------------ R1.6
-    prunes = [f for f in F.fns.values() if f.get("cls") == "nifly::NiHeader" and f["short"] == "DeleteUnreferencedBlocks" and f.get("tmpl") != "pattern"]
-    for fn in prunes:
-        ok = c04._restarts_after_delete(F, fn)
-        chk.instance(R6, ok=ok, sample={"fn": fn["name"], "restarts": ok})
-        if not ok:
-            chk.violation("R1.6", "C01/R1.6:%s" % fn["name"].split("<")[0], where(fn),
-                          "the pruner continues its scan forward after a deletion: blocks that became unreferenced at lower indices "
-                          "survive, so repeated load/save needs more than two rounds to converge")
-    chk.floor(R6, 1)
-
-    chk.assumptions += ["value-level encode/decode inside one shared expression, PrepareData<->FinalizeData inverse-ness and the "
-                        "two-round convergence bound are not decided",
-                        "locals of hand-written readers (NiString buffers, header version locals) are not wire-visible names; "
-                        "their widths are compared under C08"]
-    chk.extra["explanation"] = ("read/write symmetry of the code for all registered classes and version regions, CRTP wiring, "
-                                "count/array coherence, registry completeness and pruning fixpoint; byte equality is not decided")
+            yield None, False, (n, cs), None
 
 
 def hand_pairs(F, B):
